@@ -1,4 +1,6 @@
 import BufModel.Managed
+import BufModel.ManagedYaml
+import Driver.C16Gen
 import Driver.Util
 /-
   Line protocol for C18 (managed mode):
@@ -21,6 +23,12 @@ import Driver.Util
             opts   : as above, sorted by field number;  fields : `-` or `;`-joined  fopts:rest
             removed: `.`-joined indices of the source-info locations that are gone (`-` none)
     modold ...       same, with the sweeper as it was before the fix (documentation / replay)
+    cfgv1 <managed node> <env node>   -> err | ok <enabled> <disables> <overrides>
+    cfgv2 <managed node> <env node>      the `managed:` section of a buf.gen.yaml v1 / v2 document (node layouts of
+                     Driver/C16Gen: managedV1Of / managedV2Of / envOf) translated to rules by
+                     BufModel.ConfigGen.readManagedV1/V2 and mapped by BufModel.ManagedYaml.toConfig;
+                     the implementation answers with the rules bufconfig.ReadBufGenYAMLFile produced
+                     from the YAML text (same encoding as the <disables> <overrides> fields of `mod`)
     wkt <hex>        -> true|false        (datawkt.Exists)
     pascal <hex>     -> <hex>             (stringutil.ToPascalCase)
     pkgver <hex>     -> true|false        (protoversion.NewPackageVersionForPackage ok)
@@ -139,8 +147,50 @@ def handleMod (fixed : Bool) (pres en dis ovr files : String) : String :=
       "|".intercalate ((files.zip r.files).map fun q => fileAnswer q.1 q.2)
   | _, _, _, _, _ => "bad-op"
 
+/-- inverse of `FileOption.fromNat` (the Go iota). -/
+def foNat : FileOption → Nat
+  | .unspecified => 0 | .javaPackage => 1 | .javaPackagePrefix => 2 | .javaPackageSuffix => 3
+  | .javaOuterClassname => 4 | .javaMultipleFiles => 5 | .javaStringCheckUtf8 => 6
+  | .optimizeFor => 7 | .goPackage => 8 | .goPackagePrefix => 9 | .ccEnableArenas => 10
+  | .objcClassPrefix => 11 | .csharpNamespace => 12 | .csharpNamespacePrefix => 13
+  | .phpNamespace => 14 | .phpMetadataNamespace => 15 | .phpMetadataNamespaceSuffix => 16
+  | .rubyPackage => 17 | .rubyPackageSuffix => 18
+
+def b01 (b : Bool) : String := if b then "1" else "0"
+
+def encDisable (d : Disable) : String :=
+  ",".intercalate [enc (l2s d.path), enc (l2s d.module), enc (l2s d.fieldName),
+    toString (foNat d.fileOption), b01 d.jstype]
+
+def encOverride (o : Override) : String :=
+  ",".intercalate [enc (l2s o.path), enc (l2s o.module), enc (l2s o.fieldName),
+    toString (foNat o.fileOption), b01 o.jstype, enc (l2s o.sval), b01 o.bval, toString o.nval]
+
+def encRules (c : Config) : String :=
+  let ds := c.disables.map encDisable
+  let os := c.overrides.map encOverride
+  "ok\t" ++ b01 c.enabled ++ "\t" ++ (if ds.isEmpty then "-" else ";".intercalate ds) ++ "\t" ++
+    (if os.isEmpty then "-" else ";".intercalate os)
+
+def handleCfg (v1 : Bool) (doc env : String) : String :=
+  match Driver.C16Node.parse doc, (Driver.C16Node.parse env).bind Driver.C16Gen.envOf with
+  | some d, some e =>
+    if v1 then
+      match Driver.C16Gen.managedV1Of d with
+      | none => "bad-op"
+      | some x => match BufModel.ManagedYaml.configOfV1 e x with
+        | none => "err" | some c => encRules c
+    else
+      match Driver.C16Gen.managedV2Of d with
+      | none => "bad-op"
+      | some x => match BufModel.ManagedYaml.configOfV2 e x with
+        | none => "err" | some c => encRules c
+  | _, _ => "bad-op"
+
 def handle : List String → String
   | ["mod", pres, en, dis, ovr, files] => handleMod true pres en dis ovr files
+  | ["cfgv1", doc, env] => handleCfg true doc env
+  | ["cfgv2", doc, env] => handleCfg false doc env
   | ["modold", pres, en, dis, ovr, files] => handleMod false pres en dis ovr files
   | ["wkt", a] => match decStr a with
       | some s => toString (isWKT s) | none => "bad-op"
